@@ -482,8 +482,17 @@ def sanitiser_of(idx: PyIndex, fi: FuncInfo, consts: Optional[Dict[str, object]]
     for n in walk_no_nested(fi.node):
         if isinstance(n, ast.Call) and isinstance(n.func, ast.Attribute) and n.func.attr == 'sub':
             pat = None
-            if isinstance(n.func.value, ast.Name) and n.func.value.id in pats and len(n.args) >= 2 and isinstance(n.args[0], ast.Lambda):
-                r = lambda_repl(n.args[0])
+            repl_fn = n.args[0] if n.args else None
+            if isinstance(repl_fn, ast.Name):
+                # a named replacement function of one `return <expression>`: read like the lambda it stands for
+                sym = idx.resolve(fi.module, repl_fn.id)
+                fdef = idx.funcs.get(f'{sym.module}:{sym.name}') if sym is not None and sym.kind == 'func' else None
+                if fdef is not None and isinstance(fdef.node, ast.FunctionDef):
+                    body_ = [b_ for b_ in fdef.node.body if not (isinstance(b_, ast.Expr) and isinstance(b_.value, ast.Constant))]
+                    if len(body_) == 1 and isinstance(body_[0], ast.Return) and body_[0].value is not None:
+                        repl_fn = ast.Lambda(args=fdef.node.args, body=body_[0].value)
+            if isinstance(n.func.value, ast.Name) and n.func.value.id in pats and len(n.args) >= 2 and isinstance(repl_fn, ast.Lambda):
+                r = lambda_repl(repl_fn)
                 if r is not None:
                     pat, repl = pats[n.func.value.id], r
             if isinstance(n.func.value, ast.Name) and n.func.value.id in pats and len(n.args) >= 2 and isinstance(n.args[0], ast.Constant):
